@@ -52,14 +52,15 @@ def _close(a, b):
 
 
 # ----------------------------------------------------------------- generators
-def _frame_spec_rows(spec):
+def _frame_spec_rows(spec, seed):
   """Raw long-format rows [(geo_raw, day_index, value)] of a frame spec.
 
   Values are positive multiples of 0.25 (sums are exact in floating point).
   """
   import numpy as np
   n_geos, n_dates, id_kind, _, missing, tie, shuffle, _ = spec
-  rng = np.random.default_rng([n_geos, n_dates, int(id_kind == 'int'),
+  rng = np.random.default_rng([seed, 151, n_geos, n_dates,
+                               int(id_kind == 'int'),
                                {'none': 0, 'cells': 1, 'sparse': 2}[missing],
                                int(tie), shuffle, spec[7]])
   ids = (INT_IDS if id_kind == 'int' else STR_IDS)[:n_geos]
@@ -176,7 +177,7 @@ def _frame_task(task):
   spec, tier, seed = task
   n_geos, n_dates, id_kind, date_kind, missing, tie, shuffle, _ = spec
   res = base.MonitorResult('')
-  rows, ids = _frame_spec_rows(spec)
+  rows, ids = _frame_spec_rows(spec, seed)
   rng = np.random.default_rng([
       seed, 15, n_geos, n_dates, shuffle, spec[7], int(tie),
       {'none': 0, 'cells': 1, 'sparse': 2}[missing], int(id_kind == 'int'),
@@ -428,7 +429,7 @@ def _frame_task(task):
 
 def _specs(tier):
   specs = []
-  date_counts = (3, 5, 8) if tier == 'quick' else (3, 4, 5, 6, 7, 8)
+  date_counts = (3, 8) if tier == 'quick' else (3, 4, 5, 6, 7, 8)
   variants = (0, 1) if tier == 'quick' else (0, 1, 2, 3, 4, 5)
   for n_geos in (2, 3, 4, 5):
     for n_dates in date_counts:
@@ -461,7 +462,7 @@ def run(tier, seed):
       '(geo,date)->value from the raw rows. Non-trivial = every construction '
       'decision, every unassignable-geo probe, every non-empty geo_index '
       'order; distinct = (frame spec, eligibility number, order)' %
-      ('{3,5,8}' if tier == 'quick' else '3..8'), exhaustive=False)
+      ('{3,8}' if tier == 'quick' else '3..8'), exhaustive=False)
   res.bound = ('%d frame specs, <= 5 geos, <= 8 dates, <= 7 geos in the '
                'eligibility table' % len(specs))
   nproc = min(14, multiprocessing.cpu_count())
